@@ -4,7 +4,7 @@ NOT_APPLICABLE = {}
 
 C("C07",
   "Every public base-field operation is executed on boundary-directed operands (taken both as residues and as internal Montgomery images), "
-  "on all ordered pairs of that boundary set and inside random programs of up to 12 operations, with a u128 reference in lock-step; value, "
+  "on all ordered pairs of that boundary set and inside random programs of up to 12 operations, with a u128 reference in lock-step; every From/TryFrom conversion between elements and integers / byte arrays in both directions and Display are compared per field; value, "
   "==, serialized bytes and the documented representation range are asserted on every intermediate; inversion loops are step-bounded by a hook. "
   "Runtime oracle over ~10^6 (quick) to ~10^8 (thorough) operations; says nothing about operands never generated.",
   "Trusted: the u128 reference (native % / double-and-add, Fermat inversion), rustc overflow checks; f62 raw images are injected through the unsafe bytes_as_elements within the documented [0,2M) range.",
@@ -36,7 +36,7 @@ C("C16",
   "DESIGN.md §5 C16")
 
 C("C18",
-  "Conjectured security estimate compared with an integer re-implementation of the documented formula on the complete grid (255 query counts x 7 blowups x 33 grinding factors x 3 extension degrees x 30 trace lengths x 3 field sizes x 6 collision-resistance values, ~1.4e8 evaluations per run), with monotonicity to each adjacent grid point; proven estimate sampled (6e4 quick / 3e6 thorough parameter sets) for the four monotonicity directions; acceptance policy checked at thresholds level-1/level/level+1 and for option sets with and without the proof's options, for all six hashers.",
+  "Conjectured security estimate compared with an integer re-implementation of the documented formula on the complete grid (255 query counts x 7 blowups x 33 grinding factors x 3 extension degrees x 30 trace lengths x 3 field sizes x 6 collision-resistance values, ~1.4e8 evaluations per run), with monotonicity to each adjacent grid point; proven estimate sampled (6e4 quick / 3e6 thorough parameter sets) for the four monotonicity directions and against a transcription of the documented bound; single-threaded call histories (same parameters under the six collision resistances in random order with other calls in between) must repeat the first answer; acceptance policy checked at thresholds level-1/level/level+1 and for option sets with and without the proof's options, for all six hashers.",
   "Trusted: the integer formula in the monitor (taken from the documentation). Contexts are decoded from hand-built bytes; the policy is observed at AcceptableOptions::validate (what verify() calls first).",
   "exhaustive grid comparison with reference formula + pairwise monotonicity monitor + policy-semantics oracle",
   "DESIGN.md §5 C18")
@@ -90,7 +90,7 @@ C("C01",
   "DESIGN.md §5 C01")
 
 C("C02",
-  "For shapes of the C01 family (n = 8..64, up to 7 columns, aux segments, all field/hasher/extension combinations) every (column, step) cell of a valid trace is corrupted in turn (+1 or a random value) and proven with unchanged public inputs by the release prover; an independent reference validity predicate decides the expected verdict: still valid (only exempt transitions touched, no asserted cell) -> must be accepted, invalid -> must be rejected. Rejections are counted per step class (first step, rows around the exemption boundary, last step, asserted cells per assertion kind). The honest proof is then verified against perturbed assertion values and perturbed computation descriptions. ~1.5e4 proofs per quick run.",
+  "For shapes of the C01 family (n = 8..64, up to 7 columns, aux segments, all field/hasher/extension combinations) every (column, step) cell of a valid trace is corrupted in turn (+1 or a random value) and proven with unchanged public inputs by the release prover; an independent reference validity predicate decides the expected verdict: still valid (only exempt transitions touched, no asserted cell) -> must be accepted, invalid -> must be rejected. Rejections are counted per step class (first step, rows around the exemption boundary, last step, asserted cells per assertion kind). The honest proof is then verified against perturbed assertion values and perturbed computation descriptions, and under six acceptance policies (thresholds level / level+1 for both estimates, option sets with / without its options). The reference predicate is cross-checked with the library's Trace::validate on every corrupted trace. ~1.5e4 proofs per quick run.",
   "Trusted: reference validity predicate; rejection at the OOD check is probabilistic with failure probability <= 2^-45, statement binding of degenerate traces goes through query positions (options with >= 40 bits of position entropy). A finite corruption set is not a soundness proof.",
   "reference-predicate-driven adversarial monitor: cell-by-cell trace corruption and statement perturbation",
   "DESIGN.md §5 C02")
@@ -102,25 +102,25 @@ C("C17",
   "DESIGN.md §5 C17")
 
 C("C04",
-  "The public coin of the real prover and verifier is replaced (through the RandomCoin type parameter) by a recording coin that logs every new/reseed/draw/check_leading_zeros/draw_integers with its data. For every proof of a C01-family shape (single and multi segment, Lagrange kernel, 0..max FRI layers, grinding 0..16, three extension degrees, 12 field x hasher combinations) an offline checker verifies both logs against the protocol's trace specification generated from the shape, compares every absorbed datum with the value recomputed from the proof (commitments, hashes of the OOD trace frame and OOD evaluations, nonce, seed = context || public inputs), replays the log through the executable coin model, perturbs single absorbed data and requires every later field-element challenge to change, and requires prover and verifier logs to be identical up to the verifier's unused extra FRI challenge and its proof-of-work check.",
+  "The public coin of the real prover and verifier is replaced (through the RandomCoin type parameter) by a recording coin that logs every new/reseed/draw/check_leading_zeros/draw_integers with its data. For every proof of a C01-family shape (single and multi segment, Lagrange kernel, 0..max FRI layers, grinding 0..16, three extension degrees, 12 field x hasher combinations) an offline checker verifies both logs against the protocol's trace specification generated from the shape, compares every absorbed datum with the value recomputed from the proof (commitments, hashes of the OOD trace frame and OOD evaluations, nonce, seed = context || public inputs), replays the log through the executable coin model, perturbs single absorbed data and requires every later field-element challenge to change, and requires prover and verifier logs to be identical up to the verifier's unused extra FRI challenge and its proof-of-work check; when the verifier rejects, its operations up to that point are still compared with the prover's.",
   "Trusted: the trace specification written from the protocol description; the coin model (C19). Proof-of-work search calls are counted only. Single-threaded build.",
   "recorded event log + offline trace-specification checker + model replay",
   "DESIGN.md §5 C04")
 
 C("C03",
-  "Seed proofs of small C01-family configurations (12 field x hasher combinations, three extension degrees, 0..max FRI layers, single/multi segment, Lagrange kernel, >= 40 bits of query-position entropy) are mutated: every single-bit flip of the serialized proof, every scalar/length field and every length-prefixed component located by a wire-layout parser (boundary values; grown/shrunk by a byte or a digest with all enclosing lengths fixed up; emptied), FRI layers removed/duplicated/swapped, query records swapped, an extra or missing digest inside each Merkle node vector, truncation at every offset, trailing garbage, semantic edits through the public fields (nonce, unique-query count, gkr_proof, query sets), and the position-aware substitution remainder + c*prod(x - x_q) over the final query points read from the verifier's coin. A mutant must fail to parse, decode to the same content (or differ only by digest re-encoding / partition count: outside the claim), or be rejected. ~3e5 mutants per quick run.",
+  "Seed proofs of small C01-family configurations (12 field x hasher combinations, three extension degrees, 0..max FRI layers, single/multi segment, Lagrange kernel, >= 40 bits of query-position entropy) are mutated: every single-bit flip of the serialized proof, every scalar/length field and every length-prefixed component located by a wire-layout parser (boundary values; grown/shrunk by a byte or a digest with all enclosing lengths fixed up; emptied), FRI layers removed/duplicated/swapped, query records swapped, an extra or missing digest inside each Merkle node vector, truncation at every offset, trailing garbage, semantic edits through the public fields (nonce, unique-query count, gkr_proof, query sets), and the position-aware substitutions remainder + c*prod(x - x_q) and remainder mod prod(x - x_q) (the interpolant through the queried points) over the final query points read from the verifier's coin. A mutant must fail to parse, decode to the same content (or differ only by digest re-encoding / partition count: outside the claim), or be rejected. ~3e5 mutants per quick run.",
   "Trusted: Proof's PartialEq for 'same decoded content'; hash bindings (accidental acceptance needs a collision). Panics are counted and attributed to C06.",
   "mutation-based negative oracle over accepted proofs (raw, structured, semantic, position-aware)",
   "DESIGN.md §5 C03")
 
 C("C06",
-  "Mutants of accepted proofs (every single-bit flip and byte substitution, every scalar/length field at boundary values, components grown/shrunk/emptied with lengths fixed up, FRI layer and query surgery, Merkle node-vector edits, truncation at every offset, trailing garbage, valid prefix + random bytes, structurally valid proofs with inconsistent components built through the public fields) are parsed with Proof::from_bytes and, when they parse, verified against right and perturbed public inputs under all three acceptance policies. Worker processes announce each case before running it, so aborts are attributed to their input; a panic hook records site + message signatures; a counting global allocator bounds the largest single request (max(16 MiB, 64 x input)) and the peak; builds: release with overflow checks and the repository's plain release semantics. ~3e5 inputs per quick run. Six panic sites that need an API change (infallible Air::new fed with untrusted trace info/options) are recorded as known findings by exact signature.",
+  "Mutants of accepted proofs (every single-bit flip and byte substitution, every scalar/length field at boundary values, components grown/shrunk/emptied with lengths fixed up, FRI layer and query surgery, Merkle node-vector edits, truncation at every offset, trailing garbage, valid prefix + random bytes, structurally valid proofs with inconsistent components built through the public fields) are parsed with Proof::from_bytes and, when they parse, FRI schedules relabelled together with layer count and layer commitments, opened tables blown up to 255..1024 rows, verified against right and perturbed public inputs under all three acceptance policies. Worker processes announce each case before running it, so aborts are attributed to their input; a panic hook records site + message signatures; a counting global allocator bounds the largest single request (max(16 MiB, 64 x input)) and the peak; builds: release with overflow checks and the repository's plain release semantics. ~3e5 inputs per quick run. Six panic sites that need an API change (infallible Air::new fed with untrusted trace info/options) are recorded as known findings by exact signature.",
   "Trusted: the panic hook / allocator / process-isolation monitors of the harness. The AIR of the harness family is written defensively, so that remaining panics are in library code.",
   "fault-attributing fuzz-style workload under panic, overflow, allocation and process-death monitors",
   "DESIGN.md §5 C06")
 
 C("C14",
-  "The same driver source is built without and with the `concurrent` feature. A dump of ~460 deterministic results (FFT/iFFT/LDE of 512..8192 points over four field types, twiddles, power series, batch inversion with zeros, add_in_place, mul_acc, transpose_slice, apply_drp, hash_values, Merkle trees of 512..16384 leaves, row/column-matrix LDE of short-wide (254/255 columns x 16..64 rows, extension columns) and long-narrow matrices with their row commitments, and nine full proofs whose trace/constraint/FRI-layer commitments, OOD frame and context are dumped and which are then verified) is produced by the serial build and by the concurrent build under 13 pool sizes 1..64 and 3 oversubscribed CPU pinnings (repeated in thorough); every line must equal the serial one and every concurrent proof must verify. The workloads also run under valgrind memcheck (32 threads, quick; 8 threads thorough), ThreadSanitizer with -Zbuild-std (3/8/32 threads, thorough) and Miri (thorough), whose reports are violations.",
+  "The same driver source is built without and with the `concurrent` feature. A dump of ~460 deterministic results (FFT/iFFT/LDE of 512..8192 points over four field types, twiddles, power series, batch inversion with zeros, add_in_place, mul_acc, transpose_slice, apply_drp, hash_values, Merkle trees of 512..16384 leaves, row/column-matrix LDE of short-wide (254/255 columns x 16..64 rows, extension columns) and long-narrow matrices with their row commitments, and twelve full proofs (three with constraint-evaluation domains of 8192/16384 rows whose main and auxiliary rules read periodic columns of cycle n, n/4 and 8) whose trace/constraint/FRI-layer commitments, OOD frame and context are dumped and which are then verified) is produced by the serial build and by the concurrent build under 13 pool sizes 1..64 and 3 oversubscribed CPU pinnings (repeated in thorough); every line must equal the serial one and every concurrent proof must verify. The workloads also run under valgrind memcheck (32 threads, quick; 8 threads thorough), ThreadSanitizer with -Zbuild-std (3/8/32 threads, thorough) and Miri (thorough), whose reports are violations.",
   "Only the schedules produced by these pool sizes, pinnings and repetitions are observed; results are compared through 64-bit hashes; Miri runs without the aliasing model (dependency noise).",
   "differential dump comparison serial vs concurrent builds under a thread-pool sweep + memcheck / TSan / Miri",
   "DESIGN.md §5 C14")
